@@ -114,7 +114,8 @@ class Helper:
         self.nested_in = nested_in
         self.uses = 0
         self.inlined = 0
-        self.why_not = None
+        self.why_not = None  # not eligible at all
+        self.last_fail = None  # why the last attempted expansion at some site failed
 
 
 def _decorator_kind(fn):
@@ -586,7 +587,7 @@ class Inliner:
             removed = False
             if h.inlined and h.refs == 0:
                 removed = self._remove_def(h)
-            self.report.append({"helper": h.qn, "expanded_at": h.inlined, "remaining_references": h.refs, "removed": removed, "not_expanded_because": h.why_not})
+            self.report.append({"helper": h.qn, "expanded_at": h.inlined, "remaining_references": h.refs, "removed": removed, "not_expanded_because": h.why_not or (h.last_fail if h.refs else None)})
 
     def _remove_def(self, h):
         m = self.modules[h.modname]
@@ -694,8 +695,7 @@ class _FuncRewriter:
         try:
             out = self.inl.expand_stmt(h, call, recv, ctx, st, self.names)
         except NotInlinable as e:
-            if not h.why_not:
-                h.why_not = str(e)
+            h.last_fail = str(e)
             return None
         h.inlined += 1
         self.changed = True
@@ -714,8 +714,7 @@ class _FuncRewriter:
                 try:
                     e = rw.inl.expand_expr(h, n, recv, rw.names)
                 except NotInlinable as ex:
-                    if not h.why_not:
-                        h.why_not = str(ex)
+                    h.last_fail = str(ex)
                     return n
                 h.inlined += 1
                 rw.changed = True
@@ -758,8 +757,7 @@ class _FuncRewriter:
         try:
             pre = self.inl.expand_stmt(h, call, recv, "assign", asg, self.names)
         except NotInlinable as e:
-            if not h.why_not:
-                h.why_not = str(e)
+            h.last_fail = str(e)
             return None
         h.inlined += 1
         self.changed = True
@@ -767,6 +765,94 @@ class _FuncRewriter:
         st.test = ast.copy_location(ast.UnaryOp(op=ast.Not(), operand=name), test) if neg else name
         ast.fix_missing_locations(st)
         return pre + [st]
+
+    def _first_helper_call(self, e, local_helpers):
+        """first helper call in evaluation order inside expression e such that nothing with an
+        effect is evaluated before it; -> (call, helper, recv) or None.  Raises StopIteration-like
+        sentinel by returning False when an effect is met first."""
+        found = [None]
+
+        def go(x):
+            # returns True to continue, False to stop (effect met or found)
+            if isinstance(x, (ast.Lambda, ast.ListComp, ast.SetComp, ast.DictComp, ast.GeneratorExp)):
+                return True
+            if isinstance(x, ast.Call):
+                if not go(x.func):
+                    return False
+                for a in x.args:
+                    if not go(a.value if isinstance(a, ast.Starred) else a):
+                        return False
+                for k in x.keywords:
+                    if not go(k.value):
+                        return False
+                h, recv = self.inl.resolve(x, self.m, self.clsqn, local_helpers)
+                if h is not None and h.node is not self.fn and not isinstance(h.node, ast.AsyncFunctionDef) and not h.why_not:
+                    found[0] = (x, h, recv)
+                return False  # either found, or an effectful call was evaluated
+            if isinstance(x, (ast.Await, ast.Yield, ast.YieldFrom, ast.NamedExpr)):
+                return False
+            if isinstance(x, ast.BoolOp):
+                return go(x.values[0]) and False  # later operands are evaluated conditionally
+            if isinstance(x, ast.IfExp):
+                return go(x.test) and False
+            if isinstance(x, ast.Compare):
+                if not go(x.left):
+                    return False
+                if not go(x.comparators[0]):
+                    return False
+                return len(x.comparators) == 1
+            for c in ast.iter_child_nodes(x):
+                if isinstance(c, ast.expr):
+                    if not go(c):
+                        return False
+            return True
+
+        go(e)
+        return found[0]
+
+    def _hoist_nested(self, st, local_helpers):
+        """multi-statement helper called inside a larger expression of a simple statement:
+        `f(a, self._h(x))` -> `t = <expansion of self._h(x)>; f(a, t)`"""
+        field = None
+        if isinstance(st, (ast.Expr, ast.Return, ast.Assign, ast.AugAssign, ast.AnnAssign)) and getattr(st, "value", None) is not None:
+            field = "value"
+        elif isinstance(st, ast.If):
+            field = "test"
+        elif isinstance(st, ast.Raise) and st.exc is not None:
+            field = "exc"
+        elif isinstance(st, (ast.For, ast.AsyncFor)):
+            field = "iter"
+        elif isinstance(st, ast.Assert):
+            field = "test"
+        if field is None:
+            return None
+        pre = []
+        for _ in range(4):
+            hit = self._first_helper_call(getattr(st, field), local_helpers)
+            if not hit:
+                break
+            call, h, recv = hit
+            tmp = self.inl._fresh(h.node.name.strip("_") or "t", self.names)
+            self.names.add(tmp)
+            asg = ast.copy_location(ast.Assign(targets=[ast.Name(id=tmp, ctx=ast.Store())], value=call), st)
+            try:
+                exp = self.inl.expand_stmt(h, call, recv, "assign", asg, self.names)
+            except NotInlinable as e:
+                h.last_fail = str(e)
+                break
+            h.inlined += 1
+            self.changed = True
+            pre.extend(exp)
+
+            class Rep(ast.NodeTransformer):
+                def visit_Call(s, n):
+                    if n is call:
+                        return ast.copy_location(ast.Name(id=tmp, ctx=ast.Load()), n)
+                    return s.generic_visit(n)
+
+            setattr(st, field, Rep().visit(getattr(st, field)))
+            ast.fix_missing_locations(st)
+        return pre or None
 
     def _block(self, body, local_helpers):
         local_helpers = dict(local_helpers)
@@ -797,7 +883,10 @@ class _FuncRewriter:
                 out.extend(rep)
                 continue
             self._exprs(st, local_helpers)
-            rep = self._hoist_test(st, local_helpers)
+            pre = self._hoist_nested(st, local_helpers)
+            if pre:
+                out.extend(pre)
+            rep = self._hoist_test(st, local_helpers) if not pre else None
             if rep is not None:
                 # the If itself still needs its blocks rewritten
                 ifst = rep[-1]
@@ -904,7 +993,18 @@ class _CopyProp:
             params.add(fn.args.kwarg.arg)
         stores = {}
         nested_use = set()
-        store_chains = []  # (lineno, chain text) of attribute/subscript stores
+        store_chains = []  # (program-order index, chain text) of attribute stores
+        name_stores = {}  # name -> [program-order index of each store]
+        order = {}
+        k = 0
+        stack = list(reversed(fn.body))
+        while stack:  # pre-order numbering in program order (line numbers of expanded helpers are not ordered)
+            x = stack.pop()
+            order[id(x)] = k
+            k += 1
+            if isinstance(x, (ast.FunctionDef, ast.AsyncFunctionDef, ast.Lambda, ast.ClassDef)):
+                continue
+            stack.extend(reversed(list(ast.iter_child_nodes(x))))
         for n in _own_nodes(fn):
             if isinstance(n, (ast.FunctionDef, ast.AsyncFunctionDef, ast.Lambda, ast.ClassDef, ast.ListComp, ast.SetComp, ast.DictComp, ast.GeneratorExp)):
                 for x in ast.walk(n):
@@ -914,13 +1014,14 @@ class _CopyProp:
                     stores[n.name] = stores.get(n.name, 0) + 2
             if isinstance(n, ast.Name) and isinstance(n.ctx, (ast.Store, ast.Del)):
                 stores[n.id] = stores.get(n.id, 0) + 1
+                name_stores.setdefault(n.id, []).append(order.get(id(n), 0))
             elif isinstance(n, ast.ExceptHandler) and n.name:
                 stores[n.name] = stores.get(n.name, 0) + 2
             elif isinstance(n, (ast.Global, ast.Nonlocal)):
                 for x in n.names:
                     stores[x] = stores.get(x, 0) + 2
             elif isinstance(n, ast.Attribute) and isinstance(n.ctx, (ast.Store, ast.Del)):
-                store_chains.append((n.lineno, ast.unparse(n)))
+                store_chains.append((order.get(id(n), 0), ast.unparse(n)))
             elif isinstance(n, (ast.MatchAs, ast.MatchStar)) and n.name:
                 stores[n.name] = stores.get(n.name, 0) + 2
         # comprehension nodes are reached by _own_nodes as children: their
@@ -942,11 +1043,13 @@ class _CopyProp:
                         for r in reads:
                             root = r.split(".")[0]
                             if "." not in r:
-                                if stores.get(r, 0) > (1 if r not in params else 0) or (stores.get(r, 0) == 1 and r in params):
+                                # a name read by the value must not be re-bound after the definition
+                                # (stores that are not plain Name stores -- handlers, nested defs -- count as unknown)
+                                if stores.get(r, 0) != len(name_stores.get(r, [])) or any(ix > order.get(id(st), 0) for ix in name_stores.get(r, [])):
                                     ok = False
                             else:
                                 for ln, ch in store_chains:
-                                    if ln >= st.lineno and (ch == r or r.startswith(ch + ".") or ch.startswith(r + ".")):
+                                    if ln >= order.get(id(st), 0) and (ch == r or r.startswith(ch + ".") or ch.startswith(r + ".")):
                                         ok = False
                         # single-assigned names read by the value must be defined before: they are, by program order
                         if ok and self._uses_follow(body, i, x):
@@ -998,9 +1101,23 @@ class _CopyProp:
             ast.fix_missing_locations(stmts[k])
 
 
+def _drop_self_assignments(fn):
+    """`x = x` (left behind when a helper re-binds its own parameter) is a no-op"""
+    for parent in ast.walk(fn):
+        for field in ("body", "orelse", "finalbody"):
+            lst = getattr(parent, field, None)
+            if isinstance(lst, list) and lst and isinstance(lst[0], ast.stmt):
+                keep = [st for st in lst if not (isinstance(st, ast.Assign) and len(st.targets) == 1 and isinstance(st.targets[0], ast.Name) and isinstance(st.value, ast.Name) and st.value.id == st.targets[0].id)]
+                if len(keep) != len(lst):
+                    if not keep:
+                        keep = [ast.copy_location(ast.Pass(), lst[0])]
+                    lst[:] = keep
+
+
 def copyprop_module(m):
     n = 0
     for node in ast.walk(m.tree):
         if isinstance(node, (ast.FunctionDef, ast.AsyncFunctionDef)):
+            _drop_self_assignments(node)
             n += _CopyProp(node).run()
     return n
